@@ -21,6 +21,7 @@ fn renderings(s: &ASchema) -> Vec<(&'static str, bool, String)> {
         ("sdl-extend-type", false, s.to_sdl(&RenderKnobs { use_extend: true, ..d.clone() })),
         ("sdl-with-builtin-scalars", false, s.to_sdl(&RenderKnobs { sdl_builtin_scalars: true, ..d.clone() })),
         ("sdl-extend-implements-split", false, s.to_sdl(&RenderKnobs { use_extend: true, extend_implements: true, ..d.clone() })),
+        ("sdl-extensions-first", false, s.to_sdl(&RenderKnobs { use_extend: true, extend_implements: true, extensions_first: true, ..d.clone() })),
         ("sdl-input-defaults", false, s.to_sdl(&RenderKnobs { input_defaults: true, ..d.clone() })),
         ("json-input-defaults", true, js(&RenderKnobs { input_defaults: true, ..d.clone() })),
         ("json-bare", true, js(&d)),
